@@ -829,15 +829,26 @@ impl rustc_driver::Callbacks for Cb {
         let krate = tcx.crate_name(LOCAL_CRATE).as_str().to_string();
         let mut cx = Cx { tcx, krate, adts: BTreeMap::new() };
         let keys: Vec<_> = tcx.mir_keys(()).iter().copied().collect();
+        // 1. clone every coroutine's freshly built MIR before any other query runs: evaluating a
+        //    constant while serialising can trigger borrowck of a parent function, which steals
+        //    the mir_built of its nested closures
+        let mut clones: Vec<(DefId, mir::Body<'tcx>)> = Vec::new();
         for ldid in keys {
             let did = ldid.to_def_id();
             if !matches!(tcx.def_kind(did), DefKind::Closure) || !tcx.is_coroutine(did) {
                 continue;
             }
             let steal = tcx.mir_built(ldid);
-            let body = steal.borrow();
-            let js = cx.body(did, &body, None, "built");
-            self.built.push((cx.path(did), js));
+            if steal.is_stolen() {
+                continue;
+            }
+            let body = steal.borrow().clone();
+            clones.push((did, body));
+        }
+        // 2. serialise the clones
+        for (did, body) in clones.iter() {
+            let js = cx.body(*did, body, None, "built");
+            self.built.push((cx.path(*did), js));
         }
         self.built_adts = cx.adts;
         Compilation::Continue
